@@ -25,6 +25,33 @@ use rustc_middle::mir::{
 use rustc_middle::ty::{self, GenericArgKind, Instance, Ty, TyCtxt, TypingEnv};
 use std::fmt::Write as _;
 
+/// `<out as Iterator>::Item`, normalised in the environment of `owner`, when `out` implements Iterator
+fn iterator_item_of<'tcx>(tcx: TyCtxt<'tcx>, owner: DefId, out: Ty<'tcx>) -> Option<Ty<'tcx>> {
+    if !matches!(out.kind(), ty::Adt(..)) {
+        return None;
+    }
+    let tr = tcx.get_diagnostic_item(rustc_span::sym::Iterator)?;
+    let mut next = None;
+    let mut item = None;
+    for it in tcx.associated_items(tr).in_definition_order() {
+        match it.name().as_str() {
+            "next" => next = Some(it.def_id),
+            "Item" => item = Some(it.def_id),
+            _ => {}
+        }
+    }
+    let (next, item) = (next?, item?);
+    let typing_env = TypingEnv::post_analysis(tcx, owner);
+    let out_e = tcx.erase_and_anonymize_regions(out);
+    let args = tcx.mk_args(&[out_e.into()]);
+    match Instance::try_resolve(tcx, typing_env, next, args) {
+        Ok(Some(_)) => {}
+        _ => return None,
+    }
+    let proj = Ty::new_projection(tcx, item, args);
+    tcx.try_normalize_erasing_regions(typing_env, ty::Unnormalized::new_wip(proj)).ok()
+}
+
 // ------------------------------------------------------------------ JSON
 
 enum J {
@@ -832,6 +859,11 @@ fn export<'tcx>(tcx: TyCtxt<'tcx>) -> J {
                     ("s", s(format!("{}", sig))),
                 ]),
             ));
+            // when the output type is an iterator: its (normalised) Item type. An Iterator's items can never borrow from the iterator itself.
+            let out_noreg = tcx.instantiate_bound_regions_with_erased(sig.output());
+            if let Some(item_ty) = iterator_item_of(tcx, did, out_noreg) {
+                o.push(("output_iter_item", cx.ty(item_ty)));
+            }
             if let Some(tr) = tcx.trait_of_assoc(did) {
                 o.push(("trait_item_of", s(cx.path(tr))));
             }
